@@ -58,7 +58,7 @@ def plan(prop, tier):
             NN_=(3 if q else 4), fans="Fans_find")
         P.append(("turnstile of by-value iterator sources", "MC_Source.tla", source_consts(q), ["TypeOK", "MutualExclusion", "EachOnce", "InOrder", "NothingLost"], ["Quiesces", "NothingAfterComplete"]))
     elif prop == "C06":
-        par("collect(bag+merge)", ("collect_vec",), ["P_OrderedCollect", "P_BuffersSorted"], css="Cs_all" if not q else "Cs_min_auto")
+        par("collect(bag+merge)", ("collect_vec",), ["P_OrderedCollect", "P_BuffersSorted"], css="Cs_all" if not q else "Cs_min_auto", NN_=4)
         P.append(("collect_into targets", "MC_CollectInto.tla", {}, ["AppendsAfterPrefix"], []))
     elif prop == "C07":
         par("collect_x", ("collect_x",), ["P_Permutation", "P_AtMostOnce", "P_ExactlyOnce"])
